@@ -309,7 +309,7 @@ def dec_streams(tier, seed, path):
     n = 40 if tier == 'quick' else 1500
     return dec_gen.write(path, list(dec_gen.streams(seed, n, 's', big=(tier != 'quick'))) +
                          list(dec_gen.encoder_streams(seed + 3, n, 'e')) + list(dec_gen.large(seed))[:(4 if tier == 'thorough' else 2)] +
-                         list(dec_gen.slow_stream(seed, counts=(300, 1100) if tier == 'quick' else (300, 1100, 2100, 5000, 70000))))
+                         list(dec_gen.slow_stream(seed, counts=(300, 1300) if tier == 'quick' else (300, 1300, 2100, 5000, 40000))))
 
 
 def dec_faults(tier, seed, path):
